@@ -73,6 +73,12 @@ add("C11", True, "E1-bfs", "model_checking",
     "Trusted: the harness's mapping of discovery events to DB calls + notifications (discovery.rs) and the mirrored notification dispatch of event_loop(); after timeout + rediscovery un-re-announced endpoints may or may not be matched.",
     "5.11")
 
+add("C13", True, "E4-sched", "model_checking",
+    "stateless DFS over thread schedules of the real code under a cooperative scheduler, iterative pre-emption bounding (quick: all schedules with <= 3 pre-emptions, thorough <= 5)",
+    "Eight harness bodies run the real functions on two real OS threads (RX = what the participant's event-loop thread does: MessageReceiver::handle_received_packet / Writer::process_writer_command / handle_ack_nack / reader_lost; APP = the consumer following the documented pattern) under a baton scheduler; scheduling points are compiled (cfg rustdds_verif) between cache insert, reliable-marker update, waker take/wake, poll-event send, channel notify, drain, take, store waker, re-check, queue pop and wake. Bodies: SimpleDataReader stream, DataReader sample stream, bare stream, mio-0.6 consumer, mio-0.8 consumer (DATA 1, DATA 3, GAP 2: a held-back sample released by the marker), three async writes into a capacity-1 queue, async wait-for-acknowledgments vs ACKNACK and vs reader loss. Blocking is modelled ('parked until woken'; 'asleep in mio poll' = real zero-timeout poll of the real registered source). Every schedule within the pre-emption bound is executed; a state with no runnable thread while the consumer has not received everything / the future has not completed is a lost wake-up. Violating schedules are replayed twice before being reported.",
+    "Trusted: hand-placed scheduling points (code between two points is atomic); the event-loop model (handler runs when the edge-registered channel fires); data races proper are out of scope (all shared state on these paths is behind Mutex/channels).",
+    "5.13")
+
 NOT_YET = {}
 
 def main():
@@ -107,6 +113,7 @@ def main():
       },
       "engines": [
         {"name":"E1-bfs","path":"/verif/harness/src/engine.rs","serves_properties":[k for k,v in C.items() if v[0] and v[1].startswith("E1")],"kind_free_text":"explicit-state breadth-first search in history-replay form over deterministic simulators of the real RustDDS objects (in-crate: /verif/harness/incrate)"},
+        {"name":"E4-sched","path":"/verif/harness/incrate/sched.rs","serves_properties":[k for k,v in C.items() if v[0] and v[1].startswith("E4")],"kind_free_text":"cooperative scheduler over real OS threads with hand-placed scheduling points; stateless DFS with iterative pre-emption bounding (harness/src/c13.rs)"},
         {"name":"E2-enum","path":"/verif/harness/src/engine.rs","serves_properties":[k for k,v in C.items() if v[0] and v[1].startswith("E2")],"kind_free_text":"mixed-radix bounded-exhaustive enumeration of finite input alphabets against the real code"},
       ],
       "checks": checks,
